@@ -11,7 +11,7 @@ directive (`time.Parse`, `decimal.NewFromString`, the account registry, `transac
 Proved here, for EVERY printable directive (no bound on sizes, any Unicode letters/digits in names):
 a printed `open`, `close`, `price`, single- or multi-balance `balance` directive loads back to exactly that
 directive. `Printable…` are decidable and state what the real scanner needs:
-* dates 0001-01-01 … 9999-12-31 (`PrintableDate`);
+* dates 0000-01-01 … 9999-12-31, the range of `time.Parse("2006-01-02")` (`PrintableDate`);
 * accounts: first segment an account type, every segment non-empty and of `unicode.IsLetter/IsDigit` characters
   (`PrintableAccount`); commodities likewise one non-empty run (`okName`);
 * amounts: decimal rationals (`PrintableQty`: the denominator divides a power of ten), as `String()` prints exactly those;
@@ -124,6 +124,8 @@ example : PrintableAccount ⟨["Assets", "a b"]⟩ = false := by decide +kernel
 example : PrintableQty (mkRat (-5) 4) := by decide
 example : ¬ PrintableQty (mkRat 1 3) := by decide
 example : PrintableDate 737424 := by decide
+example : PrintableDate (-366) ∧ ¬ PrintableDate (-367) ∧ PrintableDate 3652058 ∧ ¬ PrintableDate 3652059 := by decide
+example : printOpen ⟨-366, ⟨["Assets", "Bank"]⟩⟩ = "0000-01-01 open Assets:Bank" := by decide
 
 example : printOpen ⟨737424, ⟨["Assets", "Bank"]⟩⟩ = "2020-01-01 open Assets:Bank" := by decide
 
